@@ -46,7 +46,9 @@ class Ctx:
                           "C08": {"rsq", "pend", "cur", "prev", "ax"}, "C19": {"rsq", "pend", "ctrs", "macs", "frag"},
                           "C11": {"smp", "sess"}, "C12": {"smp"}, "C14": {"frag"},
                           # the replay counters (C05), the MAC keys recorded / awaiting disclosure (C09), the resend queue (C18)
-                          "C05": {"ctrs"}, "C10": {"sess", "ms"}, "C09": {"macs", "pend"}, "C18": {"ms", "rsq", "rsf"}}.get(pid, set())
+                          "C05": {"ctrs"}, "C10": {"sess", "ms"},
+                          # a MAC key queued for disclosure is a key anybody will be able to forge with
+                          "C02": {"pend"}, "C09": {"macs", "pend"}, "C18": {"ms", "rsq", "rsf"}}.get(pid, set())
 
     def quick(self):
         return self.tier != "thorough"
